@@ -30,6 +30,20 @@ def run(run):
         sc += "Reset\nWalk 33500 -1 6\nWalk 1400 1 2\nWalk 1400 -1 4\n"
     for n, d in ((190, 1), (767, 1), (3000, -1), (800, -1), (40000 if run.thorough() else 9000, 1)):
         sc += "Reset\nWalk 37 1 2\nNoDetent %d %d\nWalk 50 -1 3\n" % (n, d)      # long stretches that never visit the detent
+    # stretches off the detent whose net movement is an exact multiple of 256 / 16384 clicks (+-1 quarter step around it)
+    for base in (1536, 3072, 3 * 8192, 3 * 32768):
+        for k in range(-3, 5):
+            sc += "Reset\nWalk 9 1 0\nNoDetent %d %d\nWalk 30 %d 2\n" % (base + k, 1 if k % 2 else -1, -1 if k % 2 else 1)
+    # the same state polled many times in a row: at rest on the detent (also with the phase shifted by invalid jumps),
+    # and held at each of the other three states; run lengths beyond any 8- or 16-bit dwell counter
+    holds = (130, 260, 520, 1100, 70000) if run.thorough() else (130, 260, 520, 70000)
+    for i, n in enumerate(holds):
+        for pre in ("", "D 3\nD 2\nD 0\n", "D 3\nD 1\nD 0\n", "D 1\nD 2\nD 0\nD 3\nD 2\nD 0\n"):
+            sc += "Reset\nWalk %d 1 0\n%sHold 0 %d\nWalk 9 1 1\nWalk 30 -1 2\n" % (8 + i, pre, n if n < 70000 or not pre else 300)
+        for st in (1, 3, 2):
+            sc += "Reset\nWalk %d -1 0\n" % (4 + i)
+            sc += {1: "D 1\n", 3: "D 1\nD 3\n", 2: "D 2\n"}[st]
+            sc += "Hold %d %d\nWalk 13 1 3\nWalk 40 -1 0\nHold 0 5\nWalk 9 1 2\n" % (st, n if st == 3 or n < 70000 else 400)
     sc += "Reset\nRandom %d %d\n" % (run.seed, 600000 if run.thorough() else 60000)
     tr = exec_script(run, exe, [], sc, run.path("walk.ndjson"), "walks", timeout=600)
     check_trace(run, "walks", "TraceRotenc", "TraceRotenc.cfg", tr, timeout=1500)
